@@ -1513,13 +1513,13 @@ def c19_scenario(rnd, k, fault_kind):
     return raw, plan
 
 
-def c19_run(rep, tier, seed, tr):
+def c19_run(rep, tier, seed, tr, n_override=None):
     import cli as C, random, shutil as _sh
     sys.path.insert(0, os.path.join(K.ROOT, "tools"))
     import fake_openai
     rep.rules.append("1-5 AI blocks over 1-2 files with conditions and contents containing everything JSON must escape (quotes, backslashes, tabs, Unicode, emoji), optional check-ai-pattern; every reply from {OK, ok, Ok., OK., near misses ' OK', 'OK\\n', 'OK!', 'OK..', OKAY, NOT OK, empty, free text}; one of 11 faults (no key, connection refused, 400/401/404 with JSON or plain body, invalid JSON, no choices, null content, empty body, connection closed mid-body) injected on one request or none; a local fake endpoint records every request; non-trivial = every scenario")
     rnd = random.Random(seed)
-    n = n_for(tier, 90, 900)
+    n = n_override or n_for(tier, 90, 900)
     scen = []
     for k in range(n):
         fault = None if k % 3 != 2 else AI_FAULTS[(k // 3) % len(AI_FAULTS)]
@@ -1788,6 +1788,25 @@ def git_e2e(rep, rows, tier, seed, limit):
                 rep.violation({"property": rep.prop, "component": f"real git diff (CLI {sub})", "what": "the binary reading git's own diff disagrees with the model",
                                "case": case, "cli": res, "model": model, "differences": [{"field": f, "cli": a, "model_and_spec": b} for f, a, b in diffs]})
                 break
+
+
+def c10_async_ranges(rep, tier, seed, tr):
+    """C10 also speaks about the ranges of Lua and AI diagnostics (the start tag of the block the verdict belongs to): scripted
+    blocks through real mlua in-process and check-ai blocks against the fake endpoint (answers partly delayed), ranges
+    compared with the model's like every other observable"""
+    rep.rules.append("plus 300 (thorough: 3000) runs with 1-12 scripted blocks and 30 (thorough: 300) check-ai scenarios: every check-lua / check-ai diagnostic carries the range of its own block's start tag")
+    n = n_for(tier, 300, 3000)
+    rows = K.run_component(rep.prop, "lua", [], seed, n, tier)
+    K.correspondence(rep, rows, "lua (ranges)", lambda c, i, m: len(i.get("run", {}).get("diags", [])) >= 1, known=K.load_known(rep.prop))
+    c19_run(rep, tier, seed, tr, n_override=n_for(tier, 30, 300))
+
+
+_c10_src = CHECKS["C10"]["run"]
+def _c10_run(rep, tier, seed, tr):
+    _c10_src(rep, tier, seed, tr)
+    c10_async_ranges(rep, tier, seed, tr)
+CHECKS["C10"]["run"] = _c10_run
+CHECKS["C10"]["needs_binary"] = True
 
 
 def replay(prop, path):
